@@ -65,7 +65,7 @@ for be in BACKS:
         xform=xf(DERIVED + [dict(name='SPEC-first', pat='region_entry_exit_helper < int_ < 0 > > :: do_exit (', rep='regions_do_exit ( 0 ,', min=1, max=1),
                   dict(name='history-exit', pat='self -> m_history . history_exit ( self -> m_states )', rep='history_exit ( self , self -> m_states )', min=1, max=1),
                   dict(name='history-deferred', pat='self -> m_history . process_deferred_events (', rep='process_deferred_events ( self ,', min=1, max=1)]),
-        replay=['order']))
+        replay=['order', 'hist']))
     UNITS.append(Unit(be + '.do_entry', ['C02', 'C04', 'C05', 'C08', 'C10', 'C12', 'C13'], be,
         [Part(SM, [], 'void do_entry ( Event const & incomingEvent , FsmType & fsm )',
               xform=xf(DERIVED + [REG_ENTRY,
